@@ -39,12 +39,14 @@ Proof.
   - destruct (opnd_is_lit s0); intros w E; inversion E. apply lit_bound; auto.
   - intros len w1 Hlen Hw1.
     rewrite (core_of_row c len (pack fs) w1 r VOPC 25 62 Hr eq_refl).
-    + cbn [dispatch]. unfold decode_vopc. xfield Hok.
+    + cbn [dispatch]. unfold decode_vopc. cbv zeta. xfield Hok.
       rewrite (getop_code s0 Ha). cbn [bind]. rewrite literal_pre0.
       2: { intros EL. rewrite EL in *. split; [exact Hlen | apply Hw1; reflexivity]. }
       cbn [bind]. cbv beta iota. rewrite new_vreg_spec by exact Hv.
+      change (i_row (inst0 (fmt_format VOPC) r)) with r.
+      rewrite cnt64_spec. unfold cnt64 at 1.
       unfold spec_inst, base_inst, dsize. cbn [d_row words snd]. rowfmt Hr.
-      destruct (opnd_is_lit s0); reflexivity.
+      unfold w64. destruct (r_src1w r =? 64), (opnd_is_lit s0); reflexivity.
     + rewrite (drop_div fs Hok 25 _ eq_refl). reflexivity.
     + opc VOPC 17 24 Hok.
     + opc VOPC 17 24 Hok.
